@@ -412,17 +412,30 @@ func c05Case(t *core.T, steps int, defaultScrypt bool) {
 			if _, err := w.W.UseWallet(x.id); err != nil {
 				continue
 			}
-			var own *wire.OutPoint
-			var ownVal int64
+			var own, own2 *wire.OutPoint
+			var ownVal, own2Val int64
+			ownAddr := ""
 			findOwn := func() {
 				utxos, err := w.W.GetUtxo(nil)
 				if err != nil {
 					return
 				}
-				for _, l := range utxos {
-					for _, u := range l {
-						if h, err := wire.NewHashFromStr(u.TxId); err == nil && own == nil {
-							own, ownVal = wire.NewOutPoint(h, u.Vout), u.Amount.IntValue()
+				var addrs []string
+				for a := range utxos {
+					addrs = append(addrs, a)
+				}
+				sort.Strings(addrs)
+				own, own2 = nil, nil
+				for _, a := range addrs {
+					for _, u := range utxos[a] {
+						h, err := wire.NewHashFromStr(u.TxId)
+						if err != nil {
+							continue
+						}
+						if own == nil {
+							own, ownVal, ownAddr = wire.NewOutPoint(h, u.Vout), u.Amount.IntValue(), a
+						} else if own2 == nil {
+							own2, own2Val = wire.NewOutPoint(h, u.Vout), u.Amount.IntValue()
 						}
 					}
 				}
@@ -438,7 +451,7 @@ func c05Case(t *core.T, steps int, defaultScrypt bool) {
 				if err != nil {
 					continue
 				}
-				cb := sim.Coinbase(n.Height()+1, t.R.Uint64(), []*wire.TxOut{wire.NewTxOut(int64(50000000+t.R.Intn(1000000)), sim.P2WSH(h))})
+				cb := sim.Coinbase(n.Height()+1, t.R.Uint64(), []*wire.TxOut{wire.NewTxOut(int64(50000000+t.R.Intn(1000000)), sim.P2WSH(h)), wire.NewTxOut(int64(20000000+t.R.Intn(1000000)), sim.P2WSH(h))})
 				b := n.NewBlock(n.Tip(), []*wire.MsgTx{cb})
 				if err := n.Extend(b); err != nil {
 					t.Fatalf("extend: %v", err)
@@ -460,6 +473,12 @@ func c05Case(t *core.T, steps int, defaultScrypt bool) {
 				copy(bogus[:], t.R.Bytes(32))
 				ins = append(ins, *wire.NewOutPoint(&bogus, uint32(t.R.Intn(2))))
 				kind = "second input unknown"
+			} else if own2 != nil {
+				// two coins of the wallet: the second input's lookups happen while the key of the first
+				// is still in memory
+				ins = append(ins, *own2)
+				ownVal += own2Val
+				t.Count("signing_calls_with_two_wallet_inputs", 1)
 			}
 			tx := sim.Spend(ins, nil, []*wire.TxOut{wire.NewTxOut(ownVal/2, sim.P2WSH(strangerH))}, t.R.Uint64()|1)
 			stripWitness(tx)
@@ -550,6 +569,37 @@ func c05Case(t *core.T, steps int, defaultScrypt bool) {
 						}
 						attempt("ExportWallet", func(p string) error { _, err := w.W.ExportWallet(x.id, p); return err })
 						attempt("GetMnemonic", func(p string) error { _, _, err := w.W.GetMnemonic(x.id, p); return err })
+						// a second client that signs (the same transaction, or a hash under the key of the
+						// first input) with a wrong passphrase while this call has keys in memory
+						attempt("SignRawTx", func(p string) error {
+							raw, err := tx.Bytes(wire.Packet)
+							if err != nil {
+								return nil
+							}
+							cp := wire.NewMsgTx()
+							if err := cp.SetBytes(raw, wire.Packet); err != nil {
+								return nil
+							}
+							stripWitness(cp)
+							out, err := w.W.SignRawTx([]byte(p), "ALL", cp)
+							if err == nil && out == nil {
+								return fmt.Errorf("no error and no bytes")
+							}
+							return err
+						})
+						if list, lerr := w.W.GetAllAddressesWithPubkey(); lerr == nil {
+							for _, a := range list {
+								if a.Address == ownAddr && a.PubKey != nil {
+									pk := a.PubKey
+									attempt("SignHash", func(p string) error {
+										h := sha256.Sum256([]byte("c05 second client"))
+										_, err := w.W.SignHash(pk, h[:], []byte(p))
+										return err
+									})
+									break
+								}
+							}
+						}
 						attempt("RemoveWallet", func(p string) error {
 							err := w.W.RemoveWallet(x.id, p)
 							if err == nil {
